@@ -124,6 +124,39 @@ fn drive<I: Iterator>(it: I, bound: u64, what: &'static str, st: &mut WalkStats,
     n
 }
 
+/// Exercise an iterator through the provided Iterator methods (size_hint, nth, skip, step_by, last, count),
+/// also after exhaustion; every loop is bounded.
+fn poke<I: Iterator>(mk: impl Fn() -> I, c: &mut Choice, st: &mut WalkStats, bound: u64) {
+    // (a quarter of the opportunities: the walk visits dozens of iterators per case)
+    if c.u8() >= 64 {
+        return;
+    }
+    let mut it = mk();
+    let (lo, hi) = it.size_hint();
+    st.sink.0 = st.sink.0.wrapping_add(lo as u64 ^ hi.unwrap_or(0) as u64);
+    let k = c.below(6) as usize;
+    let _ = it.nth(k);
+    let _ = it.size_hint();
+    let _ = it.next();
+    let big = *c.pick(&[usize::MAX, usize::MAX / 2, 1usize << 32, 70_000, 7]);
+    let _ = it.nth(big);
+    let (lo2, hi2) = it.size_hint();
+    st.sink.0 = st.sink.0.wrapping_add(lo2 as u64 ^ hi2.unwrap_or(0) as u64);
+    let _ = it.next();
+    let _ = it.size_hint();
+    let mut n = 0u64;
+    for _ in mk().skip(c.below(4) as usize).step_by(1 + c.below(3) as usize) {
+        n += 1;
+        if n > bound || n as usize >= st.budget {
+            break;
+        }
+    }
+    if bound <= st.budget as u64 && bound <= 4096 {
+        st.sink.0 = st.sink.0.wrapping_add(mk().take(bound as usize + 1).count() as u64);
+        st.sink.0 = st.sink.0.wrapping_add(mk().take(bound as usize + 1).last().is_some() as u64);
+    }
+}
+
 fn probe_indices(len: usize, c: &mut Choice, es: usize) -> [usize; 8] {
     [0, 1, len.wrapping_sub(1), len, len.wrapping_add(1), usize::MAX / es.max(1) + (c.below(3) as usize), usize::MAX - c.below(2) as usize, c.val(64) as usize]
 }
@@ -331,8 +364,15 @@ fn deep<'d, E: EndianParse + core::fmt::Debug>(f: &ElfBytes<'d, E>, data: &'d [u
     }
     let empty_syms = SymbolTable::new(f.ehdr.endianness, class, &data[..0]);
     let empty_strs = StringTable::new(&data[..0]);
+    if data.len() <= 2048 && c.chance(24) {
+        let _ = write!(st.sink, "{:?}", f);
+        let _ = write!(st.sink, "{:?}{:?}", f.segments(), f.section_headers());
+    }
     if let Some(cd) = fold!(st, f.find_common_data()) {
         st.flags |= F_COMMON;
+        if data.len() <= 2048 && c.chance(40) {
+            let _ = write!(st.sink, "{:?}", cd);
+        }
         let symsz = if class == Class::ELF64 { 24 } else { 16 };
         if let Some(t) = &cd.symtab {
             st.flags |= F_SYMTAB;
@@ -416,6 +456,8 @@ macro_rules! standalone_type {
         table_probe(&t, es, $c, $st, $data.len() as u64, $what);
         let it = ParsingIterator::<_, $t>::new($e, $class, $data);
         drive(it, $data.len() as u64, $what, $st, |_, _| {});
+        poke(|| ParsingIterator::<_, $t>::new($e, $class, $data), $c, $st, $data.len() as u64);
+        poke(|| ParsingTable::<_, $t>::new($e, $class, $data).into_iter(), $c, $st, $data.len() as u64);
     }};
 }
 
@@ -500,15 +542,27 @@ pub fn standalone<'d>(data: &'d [u8], c: &mut Choice<'d>, st: &mut WalkStats) {
     for _ in 0..3 {
         let align = if c.bool() { *c.pick(&ALIGNS) } else { c.val(64) as usize };
         note_items(NoteIterator::new(e, class, align, nd), nd.len() as u64, st);
+        poke(|| NoteIterator::new(e, class, align, nd), c, st, nd.len() as u64);
     }
     // hash tables on arbitrary bytes with independently chosen symbol/string tables
     let hd = sub(data, c);
     let syms = SymbolTable::new(e, class, sub(data, c));
     let sv = fold!(st, SysVHashTable::new(e, class, hd));
-    let gn = fold!(st, GnuHashTable::new(e, class, hd));
+    let mut gn = fold!(st, GnuHashTable::new(e, class, hd));
+    if len <= 2048 {
+        let _ = write!(st.sink, "{:?}{:?}{:?}{:?}", sv, gn, strs, syms.len());
+    }
     if sv.is_some() || gn.is_some() {
         st.flags |= F_DEEP_STANDALONE;
         hash_finds(sv.as_ref(), gn.as_ref(), &syms, &strs, len, c, st);
+    }
+    if let Some(mut g) = gn {
+        // `hdr` is a public field: a caller may set it to anything
+        g.hdr = GnuHashHeader { nbucket: c.val(32) as u32, table_start_idx: c.val(32) as u32, nbloom: c.val(32) as u32, nshift: c.val(32) as u32 };
+        let _ = fold!(st, g.find(b"memset", &syms, &strs));
+        g.hdr.nbloom = 0;
+        let _ = fold!(st, g.find(b"", &syms, &strs));
+        gn = Some(g);
     }
     let hl = len.min(4096);
     st.sink.0 = st.sink.0.wrapping_add(sysv_hash(&data[..hl]) as u64 + gnu_hash(&data[..hl]) as u64);
@@ -546,7 +600,11 @@ pub fn standalone<'d>(data: &'d [u8], c: &mut Choice<'d>, st: &mut WalkStats) {
             st.sink.0 = st.sink.0.wrapping_add(v.vn_file as u64);
             drive(aux, cnt.min(vlen), "VerNeedAuxIterator", st, |a, st| st.sink.0 = st.sink.0.wrapping_add(a.vna_name as u64));
         });
+        poke(|| VerDefIterator::new(e, class, count, start, vd), c, st, vlen);
+        poke(|| VerNeedIterator::new(e, class, count, start, vd), c, st, vlen);
         let c16 = if c.bool() { *c.pick(&COUNTS16) } else { c.u16() };
+        poke(|| VerDefAuxIterator::new(e, class, c16, start, vd), c, st, vlen);
+        poke(|| VerNeedAuxIterator::new(e, class, c16, start, vd), c, st, vlen);
         drive(VerDefAuxIterator::new(e, class, c16, start, vd), (c16 as u64).min(vlen), "VerDefAuxIterator", st, |a, st| st.sink.0 = st.sink.0.wrapping_add(a.vda_name as u64));
         drive(VerNeedAuxIterator::new(e, class, c16, start, vd), (c16 as u64).min(vlen), "VerNeedAuxIterator", st, |a, st| st.sink.0 = st.sink.0.wrapping_add(a.vna_hash as u64));
         drive(SymbolNamesIterator::new(VerDefAuxIterator::new(e, class, c16, start, vd), &strs), (c16 as u64).min(vlen), "SymbolNamesIterator", st, |r, st| {
@@ -561,6 +619,10 @@ pub fn standalone<'d>(data: &'d [u8], c: &mut Choice<'d>, st: &mut WalkStats) {
     let needs = if c.chance(200) { Some((VerNeedIterator::new(e, class, *c.pick(&COUNTS64), 0, sub(data, c)), strs)) } else { None };
     let defs = if c.chance(200) { Some((VerDefIterator::new(e, class, *c.pick(&COUNTS64), 0, sub(data, c)), strs)) } else { None };
     let t = SymbolVersionTable::new(ids, needs, defs);
+    if len <= 2048 {
+        let _ = write!(st.sink, "{:?}", t);
+    }
+    let _ = write!(st.sink, "{:?}", NoteIterator::new(e, class, 4, &data[..len.min(64)]));
     symver_queries(&t, nids, c, st, len as u64);
     // helpers
     let v = VersionIndex(c.u16());
